@@ -194,6 +194,10 @@ class Gen:
                             ops.append(("pump",))
                         continue
                 ops.append(("recv", l + tail))
+                if r.random() < 0.05:          # the same line delivered twice in a row (a retransmission)
+                    if sync and r.random() < 0.5:
+                        ops.append(("pump",))
+                    ops.append(("recv", l + tail))
             elif k < 0.92:
                 ops.append(self.call())
             elif k < 0.94:
